@@ -155,3 +155,153 @@ void *operator new[](std::size_t n, const std::nothrow_t &) noexcept {
 void operator delete[](void *p) noexcept { if (!p) return; if (big_free(p)) return; free(p); }
 void operator delete[](void *p, std::size_t) noexcept { if (!p) return; if (big_free(p)) return; free(p); }
 void operator delete[](void *p, const std::nothrow_t &) noexcept { if (!p) return; if (big_free(p)) return; free(p); }
+
+// ---------------------------------------------------------------------------
+// Guards for buffers handed to the UNINSTRUMENTED dependencies (libgmp, libgcrypt).
+// ASan sees only accesses made by instrumented code: when libTMCG passes a buffer
+// that is too small to mpz_export / gcry_mpi_print / gcry_cipher_encrypt ..., the
+// overrun happens inside the shared library and no report is raised (seeded change
+// c12_rabin_verify_export_slack: 128 octets written behind a heap block by
+// mpz_export).  The wrappers below compute the byte range the callee is going to
+// read or write from its documented contract and ask the ASan runtime whether that
+// range is addressable; a poisoned byte is reported through the runtime's own
+// report functions (same report format, stack of the libTMCG caller), then the
+// real function runs.  Only ranges the callee certainly touches are checked, so a
+// caller that merely *claims* a larger buffer than it uses raises no alarm.
+#if defined(__SANITIZE_ADDRESS__)
+#include <gmp.h>
+extern "C" {
+void *__asan_region_is_poisoned(void *beg, size_t size);
+void __asan_report_store1(void *addr);
+void __asan_report_load1(void *addr);
+}
+namespace vf { unsigned long g_libguard_checks = 0; }
+namespace {
+inline void guard_w(const void *p, size_t n) { if (!p || !n) return; vf::g_libguard_checks++; void *bad = __asan_region_is_poisoned(const_cast<void *>(p), n); if (bad) __asan_report_store1(bad); }
+inline void guard_r(const void *p, size_t n) { if (!p || !n) return; vf::g_libguard_checks++; void *bad = __asan_region_is_poisoned(const_cast<void *>(p), n); if (bad) __asan_report_load1(bad); }
+template <typename F> F real_fn(const char *name) { void *f = dlsym(RTLD_NEXT, name); if (!f) { fprintf(stderr, "libguard: %s not found\n", name); abort(); } return (F)f; }
+}
+extern "C" {
+
+void *__gmpz_export(void *rop, size_t *countp, int order, size_t size, int endian, size_t nails, mpz_srcptr op) {
+	typedef void *(*fn_t)(void *, size_t *, int, size_t, int, size_t, mpz_srcptr);
+	static fn_t real = real_fn<fn_t>("__gmpz_export");
+	if (rop && size && mpz_sgn(op) != 0 && 8 * size > nails) {
+		size_t numb = 8 * size - nails, count = (mpz_sizeinbase(op, 2) + numb - 1) / numb;
+		guard_w(rop, count * size);
+	}
+	return real(rop, countp, order, size, endian, nails, op);
+}
+
+void __gmpz_import(mpz_ptr rop, size_t count, int order, size_t size, int endian, size_t nails, const void *op) {
+	typedef void (*fn_t)(mpz_ptr, size_t, int, size_t, int, size_t, const void *);
+	static fn_t real = real_fn<fn_t>("__gmpz_import");
+	guard_r(op, count * size);
+	real(rop, count, order, size, endian, nails, op);
+}
+
+char *__gmpz_get_str(char *str, int base, mpz_srcptr op) {
+	typedef char *(*fn_t)(char *, int, mpz_srcptr);
+	static fn_t real = real_fn<fn_t>("__gmpz_get_str");
+	if (str) {
+		int b = base < 0 ? -base : base; if (b < 2) b = 10;
+		size_t digits = mpz_sizeinbase(op, b);          // exact or one too big: at least digits-1 characters are written
+		guard_w(str, (digits > 1 ? digits - 1 : 1) + (mpz_sgn(op) < 0 ? 1 : 0) + 1);
+	}
+	return real(str, base, op);
+}
+
+gcry_error_t gcry_mpi_print(enum gcry_mpi_format format, unsigned char *buffer, size_t buflen, size_t *nwritten, const gcry_mpi_t a) {
+	typedef gcry_error_t (*fn_t)(enum gcry_mpi_format, unsigned char *, size_t, size_t *, const gcry_mpi_t);
+	static fn_t real = real_fn<fn_t>("gcry_mpi_print");
+	if (buffer && buflen) { size_t need = 0; if (!real(format, NULL, 0, &need, a) && need <= buflen) guard_w(buffer, need); }
+	return real(format, buffer, buflen, nwritten, a);
+}
+
+gcry_error_t gcry_mpi_scan(gcry_mpi_t *ret, enum gcry_mpi_format format, const void *buffer, size_t buflen, size_t *nscanned) {
+	typedef gcry_error_t (*fn_t)(gcry_mpi_t *, enum gcry_mpi_format, const void *, size_t, size_t *);
+	static fn_t real = real_fn<fn_t>("gcry_mpi_scan");
+	if (format != GCRYMPI_FMT_HEX) guard_r(buffer, buflen);
+	return real(ret, format, buffer, buflen, nscanned);
+}
+
+void gcry_md_hash_buffer(int algo, void *digest, const void *buffer, size_t length) {
+	typedef void (*fn_t)(int, void *, const void *, size_t);
+	static fn_t real = real_fn<fn_t>("gcry_md_hash_buffer");
+	guard_r(buffer, length); guard_w(digest, gcry_md_get_algo_dlen(algo));
+	real(algo, digest, buffer, length);
+}
+
+gcry_error_t gcry_cipher_encrypt(gcry_cipher_hd_t h, void *out, size_t outsize, const void *in, size_t inlen) {
+	typedef gcry_error_t (*fn_t)(gcry_cipher_hd_t, void *, size_t, const void *, size_t);
+	static fn_t real = real_fn<fn_t>("gcry_cipher_encrypt");
+	if (in) { guard_r(in, inlen); if (inlen <= outsize) guard_w(out, inlen); } else guard_w(out, outsize);
+	return real(h, out, outsize, in, inlen);
+}
+
+gcry_error_t gcry_cipher_decrypt(gcry_cipher_hd_t h, void *out, size_t outsize, const void *in, size_t inlen) {
+	typedef gcry_error_t (*fn_t)(gcry_cipher_hd_t, void *, size_t, const void *, size_t);
+	static fn_t real = real_fn<fn_t>("gcry_cipher_decrypt");
+	if (in) { guard_r(in, inlen); if (inlen <= outsize) guard_w(out, inlen); } else guard_w(out, outsize);
+	return real(h, out, outsize, in, inlen);
+}
+
+gcry_error_t gcry_cipher_setkey(gcry_cipher_hd_t h, const void *key, size_t keylen) {
+	typedef gcry_error_t (*fn_t)(gcry_cipher_hd_t, const void *, size_t);
+	static fn_t real = real_fn<fn_t>("gcry_cipher_setkey");
+	guard_r(key, keylen); return real(h, key, keylen);
+}
+
+gcry_error_t gcry_cipher_setiv(gcry_cipher_hd_t h, const void *iv, size_t ivlen) {
+	typedef gcry_error_t (*fn_t)(gcry_cipher_hd_t, const void *, size_t);
+	static fn_t real = real_fn<fn_t>("gcry_cipher_setiv");
+	guard_r(iv, ivlen); return real(h, iv, ivlen);
+}
+
+gcry_error_t gcry_cipher_authenticate(gcry_cipher_hd_t h, const void *abuf, size_t abuflen) {
+	typedef gcry_error_t (*fn_t)(gcry_cipher_hd_t, const void *, size_t);
+	static fn_t real = real_fn<fn_t>("gcry_cipher_authenticate");
+	guard_r(abuf, abuflen); return real(h, abuf, abuflen);
+}
+
+gcry_error_t gcry_cipher_gettag(gcry_cipher_hd_t h, void *tag, size_t taglen) {
+	typedef gcry_error_t (*fn_t)(gcry_cipher_hd_t, void *, size_t);
+	static fn_t real = real_fn<fn_t>("gcry_cipher_gettag");
+	guard_w(tag, taglen); return real(h, tag, taglen);
+}
+
+gcry_error_t gcry_cipher_checktag(gcry_cipher_hd_t h, const void *tag, size_t taglen) {
+	typedef gcry_error_t (*fn_t)(gcry_cipher_hd_t, const void *, size_t);
+	static fn_t real = real_fn<fn_t>("gcry_cipher_checktag");
+	guard_r(tag, taglen); return real(h, tag, taglen);
+}
+
+gcry_error_t gcry_mac_setkey(gcry_mac_hd_t h, const void *key, size_t keylen) {
+	typedef gcry_error_t (*fn_t)(gcry_mac_hd_t, const void *, size_t);
+	static fn_t real = real_fn<fn_t>("gcry_mac_setkey");
+	guard_r(key, keylen); return real(h, key, keylen);
+}
+
+gcry_error_t gcry_mac_write(gcry_mac_hd_t h, const void *buf, size_t buflen) {
+	typedef gcry_error_t (*fn_t)(gcry_mac_hd_t, const void *, size_t);
+	static fn_t real = real_fn<fn_t>("gcry_mac_write");
+	guard_r(buf, buflen); return real(h, buf, buflen);
+}
+
+gcry_error_t gcry_mac_read(gcry_mac_hd_t h, void *buf, size_t *buflen) {
+	typedef gcry_error_t (*fn_t)(gcry_mac_hd_t, void *, size_t *);
+	static fn_t real = real_fn<fn_t>("gcry_mac_read");
+	if (buf && buflen) { size_t ml = gcry_mac_get_algo_maclen(gcry_mac_get_algo(h)); guard_w(buf, ml && ml < *buflen ? ml : *buflen); }
+	return real(h, buf, buflen);
+}
+
+gcry_error_t gcry_mac_verify(gcry_mac_hd_t h, const void *buf, size_t buflen) {
+	typedef gcry_error_t (*fn_t)(gcry_mac_hd_t, const void *, size_t);
+	static fn_t real = real_fn<fn_t>("gcry_mac_verify");
+	guard_r(buf, buflen); return real(h, buf, buflen);
+}
+
+} // extern "C"
+#else
+namespace vf { unsigned long g_libguard_checks = 0; }
+#endif
